@@ -32,10 +32,11 @@ var errSymWrite = errors.New("write: broken pipe")
 
 type symConn struct {
 	name       string
-	in         []byte
-	pos        int
-	avail      int
-	final      bool // no more data will be delivered
+	chunks     [][]byte // inbound stream as a sequence of chunks (a Read never spans two chunks: a legal short read)
+	ci, off    int      // read cursor: chunk index, offset inside it
+	pos        int      // total bytes consumed
+	avail      int      // chunks [0,avail) have arrived
+	final      bool     // no more data will be delivered
 	endMode    int
 	shortReads int
 	reads      int
@@ -48,14 +49,38 @@ type symConn struct {
 	writeAfterClose int
 	local      netip.Addr
 	remote     netip.Addr
-	readAfterFault int
 }
 
+// newSymConn: the whole stream `in` has arrived (one chunk); see addFrame for framed streams.
 func newSymConn(name string, in []byte, endMode int) *symConn {
-	return &symConn{name: name, in: in, avail: len(in), final: true, endMode: endMode,
-		more: make(chan struct{}, 1), closedCh: make(chan struct{})}
+	c := &symConn{name: name, final: true, endMode: endMode, more: make(chan struct{}, 1), closedCh: make(chan struct{})}
+	if len(in) > 0 {
+		c.chunks = append(c.chunks, in)
+	}
+	c.avail = len(c.chunks)
+	return c
 }
 
+// addFrame appends a well-formed message (header chunk + body chunk) to the inbound stream.
+func (c *symConn) addFrame(typ uint8, body []byte) {
+	c.chunks = append(c.chunks, mkFrame(typ, nil))
+	h := c.chunks[len(c.chunks)-1]
+	n := 19 + len(body)
+	h[16], h[17] = byte(n>>8), byte(n)
+	if len(body) > 0 {
+		c.chunks = append(c.chunks, body)
+	}
+	c.avail = len(c.chunks)
+}
+
+func (c *symConn) addBytes(b []byte) {
+	if len(b) > 0 {
+		c.chunks = append(c.chunks, b)
+	}
+	c.avail = len(c.chunks)
+}
+
+// deliver makes chunks [0,upTo) readable (staged arrival).
 func (c *symConn) deliver(upTo int, final bool) {
 	c.avail = upTo
 	c.final = final
@@ -73,21 +98,24 @@ func (c *symConn) Read(p []byte) (int, error) {
 		if len(p) == 0 {
 			return 0, nil
 		}
-		rem := c.avail - c.pos
-		if rem > 0 {
-			n := rem
+		if c.ci < c.avail {
+			ch := c.chunks[c.ci]
+			n := len(ch) - c.off
 			if len(p) < n {
 				n = len(p)
 			}
 			if c.shortReads > 0 && n > 1 {
 				c.shortReads--
-				k := verifInt("readn")
-				verifAssume(verifAnd(k >= 1, k <= n))
-				n = k
+				n = verifRange("readn", 1, n)
 			}
-			copy(p[:n], c.in[c.pos:c.pos+n])
+			copy(p[:n], ch[c.off:c.off+n])
+			c.off += n
 			c.pos += n
 			c.reads++
+			if c.off == len(ch) {
+				c.ci++
+				c.off = 0
+			}
 			return n, nil
 		}
 		if c.final {
